@@ -169,6 +169,10 @@ def enc_op(op):
     return f'r:{op[1]}:{op[2]}:{1 if op[3] else 0}'
 
 
+class BodyError(Exception):
+    pass
+
+
 def model_line(reent, faults, ops):
     return (f"flock reent={','.join('1' if r else '0' for r in reent)} "
             f"faults={','.join(map(str, sorted(faults)))} ops={';'.join(enc_op(o) for o in ops)}")
@@ -177,7 +181,8 @@ def model_line(reent, faults, ops):
 def run_seq(reent, faults, ops, workdir, expand=False):
     """Execute ops one after the other on real FileLock objects over one real lock file.
     op = ('a', obj, thread, mode) with mode 'n' | 'b' | 't<ticks>'   or   ('r', obj, thread, force)   or
-    ('x', obj, thread, mode): a whole `with obj.acquire_ctx(...)` block (mode 'w': the plain with-statement),
+    ('x', obj, thread, mode): a whole `with obj.acquire_ctx(...)` block (mode 'w': the plain with-statement; 'we': the same with a body
+    that raises - the block is left through `__exit__(exc_type, exc, tb)`),
     which counts as the acquire followed - only when the block was entered - by a plain release.
     Returns list of 'res/locked/open/elapsed' strings (same format as the model) and the Env; with
     `expand` also the operation list in which every 'x' is replaced by what it amounted to."""
@@ -201,6 +206,7 @@ def run_seq(reent, faults, ops, workdir, expand=False):
             n0 = env.ncall
             o = objs[op[1]]
             entered = None
+            body_raises = False
             try:
                 if op[0] == 'a':
                     m = op[3]
@@ -214,6 +220,9 @@ def run_seq(reent, faults, ops, workdir, expand=False):
                     res = 'T' if r is True else 'F' if r is False else repr(r)
                 elif op[0] == 'x':
                     m = op[3]
+                    body_raises = m.endswith('e')          # 'we': the body of the with-statement raises
+                    if body_raises:
+                        m = m[:-1]
                     flat.append(('a', op[1], op[2], 'b' if m == 'w' else m))
                     if m == 'w':
                         cm = o
@@ -247,7 +256,11 @@ def run_seq(reent, faults, ops, workdir, expand=False):
                 t0 = env.vt
                 flat.append(('r', op[1], op[2], False))
                 try:
-                    r = entered.__exit__(None, None, None)
+                    if body_raises:
+                        exc = BodyError('raised inside the with-block')
+                        r = entered.__exit__(BodyError, exc, None)
+                    else:
+                        r = entered.__exit__(None, None, None)
                     res = 'U' if not r else repr(r)
                 except OSError:
                     res = 'X'
@@ -482,7 +495,7 @@ def gen_threads(rng):
     """A multi-thread scenario: objects (reentrancy) and one script per thread.
     round = (obj, form, nested, force) with form in
       'b' blocking acquire(), 'n' non-blocking, 't<ticks>' timed, 'with' the with-statement,
-      'ctxb' / 'ctxn' / 'ctxt<ticks>' acquire_ctx().
+      'ctxb' / 'ctxn' / 'ctxt<ticks>' acquire_ctx(), 'withx' nested with-statements, the inner one left by an exception.
     An optional fifth element is the number of ticks the holder stays inside its critical section (virtual
     time only passes while nobody can run, so this is what lets the others' timeouts expire)."""
     nobj = rng.randint(1, 2)
@@ -497,6 +510,10 @@ def gen_threads(rng):
             nested = reent[o] and rng.random() < 0.4
             force = nested and rng.random() < 0.5
             hold = rng.choice([0, 0, 100, 400])
+            if reent[o] and rng.random() < 0.2:
+                # `with ob:` around an inner `with ob:` whose body raises (the error is handled inside the outer
+                # block); the critical section comes after the inner block
+                form = 'withx'
             rounds.append((o, form, nested, force, hold))
         scripts.append(rounds)
     return {'reent': reent, 'scripts': scripts}
@@ -555,6 +572,23 @@ def run_threads(scn, seed, workdir, choices=None, pct=0):
                 if form == 'with':
                     E.ctx[me] = 'acquire'
                     ob.__enter__()
+                    E.ctx[me] = None
+                    critical(me, hold)
+                    S.point('release')
+                    E.labels.append(f'rb:{me}:{o}:0')
+                    E.ctx[me] = 'release'
+                    ob.__exit__(None, None, None)
+                    E.ctx[me] = None
+                    continue
+                if form == 'withx':
+                    for _ in range(2):
+                        E.ctx[me] = 'acquire'
+                        ob.__enter__()
+                        E.ctx[me] = None
+                    S.point('release')
+                    E.labels.append(f'rb:{me}:{o}:0')
+                    E.ctx[me] = 'release'
+                    ob.__exit__(BodyError, BodyError('raised inside the inner with-block'), None)
                     E.ctx[me] = None
                     critical(me, hold)
                     S.point('release')
